@@ -2,6 +2,7 @@
 import sympy
 
 from tsg.facts import DB, strip, txt, callee, call_args, call_object, walk, const_val, short, callee_node
+from tsg.flow import var_of
 from tsg.peval import PEval
 from tsg.sym import NotClosedForm, index_form
 from tsg.build import AnalysisBroken
@@ -140,10 +141,28 @@ def run(chk):
     # ------------------------------------------------------------------ D4
     nlay = 0
     for f in db.fns("TasGrid::GridLocalPolynomial::walkTree"):
-        sites = []
-        for n in walk(f.body):
-            if n.get("k") == "CompoundAssignOperator" and n.get("op") == "+=" and "basis_derivative[" in txt(n["c"][1]):
-                sites.append(n)
+        # the derivative array is the local whose storage is handed to diffBasisSupported; the coefficients come from a strip of the surpluses
+        loc = {v["did"]: v for v in f.locals().values() if "did" in v}
+        dids = set()
+        for c in f.calls():
+            if (callee(c) or "").endswith("::diffBasisSupported"):
+                for a in call_args(c):
+                    for q in walk(a):
+                        if q.get("k") == "DeclRefExpr" and q.get("did") in loc and loc[q["did"]].get("t", "").startswith("std::vector<double"):
+                            dids.add(q["did"])
+        sdids = {d for d, v in loc.items() if "*" in v.get("t", "") and any((callee(q) or "").endswith("::getStrip") and "surpluses" in txt(q) for c in v.get("c", []) if isinstance(c, dict) for q in walk(c))}
+
+        def sub_of(rhs, ids):
+            out = []
+            for q in walk(rhs):
+                if q.get("k") == "ArraySubscriptExpr" and var_of(q["c"][0]) in ids:
+                    out.append(txt(strip(q["c"][1])))
+                if q.get("k") == "CXXOperatorCallExpr" and q.get("op") == "[]":
+                    ch = [x for x in q.get("c", []) if isinstance(x, dict)]
+                    if var_of(ch[-2]) in ids:
+                        out.append(txt(strip(ch[-1])))
+            return out
+        sites = [n for n in walk(f.body) if n.get("k") == "CompoundAssignOperator" and n.get("op") == "+=" and sub_of(n["c"][1], dids)]
         if not sites:
             continue
         chk.saw(f)
@@ -152,9 +171,8 @@ def run(chk):
             lhs = strip(n["c"][0])
             form = index_form(lhs["c"][1]) if lhs.get("k") == "ArraySubscriptExpr" else None
             rhs = n["c"][1]
-            dvar = [txt(strip(q["c"][1])) for q in walk(rhs) if q.get("k") == "ArraySubscriptExpr" and txt(strip(q["c"][0])) == "basis_derivative"] + \
-                   [txt(strip(q["c"][2])) for q in walk(rhs) if q.get("k") == "CXXOperatorCallExpr" and q.get("op") == "[]" and txt(strip(q["c"][1])) == "basis_derivative"]
-            svar = [txt(strip(q["c"][1])) for q in walk(rhs) if q.get("k") == "ArraySubscriptExpr" and txt(strip(q["c"][0])) in ("s", "surp")]
+            dvar = sub_of(rhs, dids)
+            svar = sub_of(rhs, sdids)
             ok = form is not None and dvar and svar and form[2] == dvar[0] and svar[0] in (form[0], form[1]) and "num_dimensions" in (form[0], form[1])
             chk.ob("C05-D4.layout", f.key, "gradient accumulation @%d %s" % (n.get("l", 0), txt(lhs)), bool(ok), f.loc(n),
                    "index form %s, derivative index %s, coefficient index %s" % (form, dvar[:1], svar[:1]), "y[output * num_dimensions + dim]")
